@@ -629,6 +629,9 @@ func (rule *RuleExpression) checkIfCondition(str *String, workflowKey string) {
 	} else {
 		src := str.Value + "}}" // }} is necessary since lexer lexes it as end of tokens
 		line, col := str.Pos.Line, str.Pos.Col
+		if str.Quoted {
+			col++ // when the condition is quoted like 'foo' or "foo", the expression starts after the quote
+		}
 
 		p := NewExprParser()
 		l := NewExprLexer(src)
